@@ -86,7 +86,15 @@ def showState (st : St) (n : String) : String :=
   let base := s!"{showKV s.kv} size={size}"
   if n == "P" then base ++ " dp=[" ++ ",".intercalate ((sortBytes st.p.deletedPrefixes).map hex) ++ "]" else base
 
-def typedKV (cfg : Cfg) (kv : KV) : KV := kv.map fun p => (p.1, (stripTag cfg (some p.2)).getD [])
+/-- the typed value of a stored text: tag stripped, numbers re-rendered canonically ("007" = "7", "1.50" = "1.5") -/
+def canonTyped (cfg : Cfg) (v : Bytes) : Bytes :=
+  let b := (stripTag cfg (some v)).getD []
+  match cfg.vt with
+  | .int64 | .bigint => match parseInt b with | some i => renderInt i | none => b
+  | .bigdecimal => match Dec.parse b with | some d => d.render | none => b
+  | _ => b
+
+def typedKV (cfg : Cfg) (kv : KV) : KV := kv.map fun p => (p.1, canonTyped cfg p.2)
 
 def hostOps (ops : List Op) : Option (List Op) := ops.mapM hostOp
 
